@@ -394,9 +394,17 @@ namespace Dev
 def sideOK (lg : FV) (n : Int) : Bool :=
   (le (ofInt 21) lg || lt lg (ofInt (-6))) == decide (n > 21 ∨ n ≤ -6)
 
+/-- the hypotheses the layout theorems make about generated digits (`Thm.WFDec`), as a Bool: checked on
+    every sample; a failure would show up as the unlisted region `digits_wf` -/
+def wfDec (d : Dec) : Bool :=
+  !d.ds.isEmpty && d.ds.all (· < 10) && decide (-999 < d.dp ∧ d.dp < 1000)
+
 def toStr (x lg : FV) : List String :=
   match x with
-  | .fin _ m e => if m ≠ 0 ∧ !sideOK lg (shortestDigits m e).dp then ["toString_threshold"] else []
+  | .fin _ m e =>
+    if m = 0 then [] else
+    (if !wfDec (shortestDigits m e) then ["digits_wf"] else []) ++
+    (if !sideOK lg (shortestDigits m e).dp then ["toString_threshold"] else [])
   | _ => []
 
 /-- a/b lies exactly half way between two integers -/
@@ -408,6 +416,7 @@ def fixed (x lg : FV) (a : Arg) : List String :=
   match x with
   | .fin s m e =>
     let (num, den) := ratOf m e
+    (if le (ofRatParts false (10 ^ 21) 1) (abs x) != decide (num ≥ 10 ^ 21 * den) then ["f64_le_mismatch"] else []) ++
     if num ≥ 10 ^ 21 * den then toStr x lg
     else
       (if s ∧ m = 0 then ["toFixed_negzero"] else []) ++
@@ -432,6 +441,8 @@ def exp (x : FV) (a : Arg) : List String :=
         if m = 0 then 0
         else if a.isDefined then (sigRoundUp m e ((intOf f).toNat + 1)).2
         else (shortestDigits m e).dp - 1
+      (if m ≠ 0 ∧ a.isDefined ∧ (sigRoundUp m e ((intOf f).toNat + 1)).1.length ≠ (intOf f).toNat + 1 then ["digits_wf"] else []) ++
+      (if m ≠ 0 ∧ !a.isDefined ∧ !wfDec (shortestDigits m e) then ["digits_wf"] else []) ++
       (if s ∧ m = 0 then ["toExponential_negzero"] else []) ++
       (if ex.natAbs < 10 then ["toExponential_exp2"] else []) ++
       (if m ≠ 0 ∧ a.isDefined ∧ sigTie m e ((intOf f).toNat + 1) then ["toExponential_tie"] else [])
@@ -449,6 +460,7 @@ def prec (x lg : FV) (a : Arg) : List String :=
       else
         let p := (intOf pI).toNat
         let (ds, ex) : List Nat × Int := if m = 0 then (List.replicate p 0, 0) else sigRoundUp m e p
+        (if ds.length ≠ p then ["digits_wf"] else []) ++
         (if s ∧ m = 0 then ["toPrecision_negzero"] else []) ++
         (if p > 1 ∧ ds.getLast? = some 0 then ["toPrecision_zeros"] else []) ++
         (if (ex < -6 ∨ ex ≥ p) ∧ ex.natAbs < 10 then ["toPrecision_exp2"] else []) ++
